@@ -376,8 +376,25 @@ def main():
     if replay:
         return do_replay(pid, spec, replay)
     oc = Outcome()
-    for b in spec['builds']:
-        decide_build(pid, spec, b, tier, oc, seed)
+    from concurrent.futures import ThreadPoolExecutor
+    subs = [Outcome() for _ in spec['builds']]
+    with ThreadPoolExecutor(max_workers=int(os.environ.get('VERIF_BUILD_JOBS', '3'))) as ex:
+        futs = [ex.submit(decide_build, pid, spec, b, tier, so, seed) for b, so in zip(spec['builds'], subs)]
+        for f in futs:
+            f.result()
+    for so in subs:
+        oc.violations += so.violations
+        oc.undecided += so.undecided
+        oc.known += so.known
+        oc.obligations += so.obligations
+        oc.discharged += so.discharged
+        oc.functions.update(so.functions)
+        oc.trusted += so.trusted
+        oc.parts += so.parts
+        oc.solver_ms += so.solver_ms
+        oc.cmds += so.cmds
+        oc.canaries = (oc.canaries[0] + so.canaries[0], oc.canaries[1] + so.canaries[1])
+        oc.notes += so.notes
     # Kani components
     kani_results = []
     if spec.get('kani'):
